@@ -440,3 +440,174 @@ Proof.
   destruct (Sse.line_step classify s1 (c :: r)) as [s2 e2]. cbn [snd] in E. subst e2.
   cbn [snd]. rewrite app_nil_r. reflexivity.
 Qed.
+
+(* ---------------------------------------------------------------- (6) nothing from nothing: provenance of call ids *)
+(* Every call the collector completes carries a call id that a function_call item of an output_item.added / .done
+   event of the SAME answer carries (the id may come from the done item itself or from an earlier added event of the
+   same item): no call is drained — executed, answered — that the provider did not announce. *)
+Definition carries (ev : json) (cid : str) : Prop :=
+  exists obj item, ev = JObj obj /\
+    (get_str K_type obj = Some S_item_added \/ get_str K_type obj = Some S_item_done) /\
+    obind (jget K_item obj) as_obj = Some item /\
+    get_str K_type item = Some S_function_call /\ get_str K_call_id item = Some cid.
+
+Definition prov (P : str -> Prop) (c : coll) : Prop :=
+  (forall x, In x (k_done c) -> P (c_id x)) /\
+  (forall k b cid, aget k (k_bufs c) = Some b -> b_call b = Some cid -> P cid).
+
+Lemma prov_mono (P Q : str -> Prop) c : (forall x, P x -> Q x) -> prov P c -> prov Q c.
+Proof. intros H [H1 H2]. split; [intros x Hx; apply H, H1, Hx | intros k b cid Ha Hb; apply H; eapply H2; eauto]. Qed.
+
+Lemma in_push_done fx d y x : In x (push_done fx d y) -> In x d \/ x = y.
+Proof.
+  unfold push_done. destruct (fx && has_call_id (c_id y) d); [left; assumption|].
+  intros H. apply in_app_or in H. destruct H as [H|[H|[]]]; [left; exact H | right; symmetry; exact H].
+Qed.
+
+Lemma aget_adel {V} k k' (l : list (str * V)) b : aget k (adel k' l) = Some b -> aget k l = Some b.
+Proof.
+  induction l as [|[k0 v0] r IH]; cbn [adel aget]; [discriminate|].
+  destruct (str_eqb k' k0) eqn:E0.
+  - intros H. specialize (IH H). destruct (str_eqb k k0) eqn:E1; [|exact IH].
+    (* k = k0 = k': impossible, adel removed every k' *)
+    exfalso. apply str_eqb_eq in E0. apply str_eqb_eq in E1. subst k0 k'.
+    clear IH. revert H. induction r as [|[k1 v1] r IHr]; cbn [adel aget]; [discriminate|].
+    destruct (str_eqb k k1) eqn:E2; [exact IHr|]. cbn [aget]. rewrite E2. exact IHr.
+  - cbn [aget]. destruct (str_eqb k k0); [intros H; exact H | exact IH].
+Qed.
+
+Lemma nonempty_some o s : nonempty o = Some s -> o = Some s.
+Proof. destruct o as [[|c r]|]; cbn [nonempty]; intros H; try discriminate; exact H. Qed.
+
+Lemma orelse_some {A} (a b : option A) x : orelse a b = Some x -> a = Some x \/ b = Some x.
+Proof. destruct a; cbn [orelse]; intros H; [left|right]; exact H. Qed.
+
+Lemma prov_entry P c k cid :
+  prov P c -> b_call (entry_or_default k (k_bufs c)) = Some cid -> P cid.
+Proof.
+  intros [_ Hb]. unfold entry_or_default. destruct (aget k (k_bufs c)) eqn:E; [|discriminate].
+  intros H. eapply Hb; eauto.
+Qed.
+
+Lemma prov_obs_item fx (P : str -> Prop) c obj dn :
+  prov P c ->
+  (forall item cid, obind (jget K_item obj) as_obj = Some item -> get_str K_type item = Some S_function_call ->
+                    get_str K_call_id item = Some cid -> P cid) ->
+  prov P (obs_item fx c obj dn).
+Proof.
+  intros Hp Hev. unfold obs_item.
+  destruct (obind (jget K_item obj) as_obj) as [item|] eqn:Ei; [|exact Hp].
+  destruct (get_str K_type item) as [t|] eqn:Et; cbn [negb]; [|exact Hp].
+  destruct (str_eqb t S_function_call) eqn:Ef; cbn [negb]; [|exact Hp].
+  apply str_eqb_eq in Ef. subst t.
+  assert (Hc : forall cid, get_str K_call_id item = Some cid -> P cid) by (intros cid H; eapply Hev; eauto).
+  assert (Hcall : forall cid, nonempty (get_str K_call_id item) = Some cid -> P cid)
+    by (intros cid H; apply Hc, nonempty_some, H).
+  cbv zeta.
+  match goal with |- context [match ?e with [] => c | _ :: _ => _ end] => destruct e as [|i0 ir] eqn:Eid end; [exact Hp|].
+  set (iid := i0 :: ir) in *.
+  assert (He1 : forall cid, orelse (nonempty (get_str K_call_id item)) (b_call (entry_or_default iid (k_bufs c))) = Some cid -> P cid).
+  { intros cid H. apply orelse_some in H. destruct H as [H|H]; [apply Hcall, H | eapply prov_entry; eauto]. }
+  destruct Hp as [Hd Hb]. destruct dn.
+  - split; cbn [k_done k_bufs].
+    + intros x Hx. cbn [b_call b_name b_args] in Hx.
+      destruct (orelse (get_str K_call_id item) (orelse (nonempty (get_str K_call_id item)) (b_call (entry_or_default iid (k_bufs c))))) as [ci|] eqn:Ec;
+        [|apply Hd, Hx].
+      destruct (orelse (get_str K_name item) (orelse (get_str K_name item) (b_name (entry_or_default iid (k_bufs c))))) as [nm|];
+        [|apply Hd, Hx].
+      apply in_push_done in Hx. destruct Hx as [Hx|Hx]; [apply Hd, Hx|]. subst x. cbn [c_id].
+      apply orelse_some in Ec. destruct Ec as [Ec|Ec]; [apply Hc, Ec | apply He1, Ec].
+    + intros k b cid Ha Hbc. apply aget_adel in Ha. eapply Hb; eauto.
+  - split; cbn [k_done k_bufs]; [exact Hd|].
+    intros k b cid Ha Hbc. rewrite aget_aset in Ha. destruct (str_eqb k iid).
+    + inversion Ha; subst b. cbn [b_call] in Hbc. apply He1, Hbc.
+    + eapply Hb; eauto.
+Qed.
+
+Lemma prov_obs_args (P : str -> Prop) c obj dn : prov P c -> prov P (obs_args c obj dn).
+Proof.
+  intros Hp. unfold obs_args. destruct (get_str K_item_id obj) as [iid|]; [|exact Hp].
+  pose proof (prov_entry P c iid) as He. destruct Hp as [Hd Hb].
+  split; cbn [k_done k_bufs]; [exact Hd|].
+  intros k b cid Ha Hbc. rewrite aget_aset in Ha. destruct (str_eqb k iid).
+  - inversion Ha; subst b. destruct dn; cbn [b_call] in Hbc; apply He; [split; assumption | exact Hbc | split; assumption | exact Hbc].
+  - eapply Hb; eauto.
+Qed.
+
+Lemma prov_observe fx (P : str -> Prop) c ev :
+  prov P c -> (forall cid, carries ev cid -> P cid) -> prov P (observe fx c ev).
+Proof.
+  intros Hp Hev. unfold observe. destruct ev as [| | | |?|obj]; try exact Hp.
+  set (c1 := match nonempty _ with Some id => _ | None => c end).
+  assert (Hp1 : prov P c1).
+  { subst c1. destruct (nonempty _); [|exact Hp]. destruct Hp as [Hd Hb]. split; cbn [k_done k_bufs]; assumption. }
+  destruct (get_str K_type obj) as [ty|] eqn:Ety; [|exact Hp1].
+  destruct (str_eqb ty S_item_added) eqn:Ea.
+  { apply str_eqb_eq in Ea. subst ty. apply prov_obs_item; [exact Hp1|].
+    intros item cid H1 H2 H3. apply Hev. exists obj, item. repeat split; auto. }
+  destruct (str_eqb ty S_item_done) eqn:Ed.
+  { apply str_eqb_eq in Ed. subst ty. apply prov_obs_item; [exact Hp1|].
+    intros item cid H1 H2 H3. apply Hev. exists obj, item. repeat split; auto. }
+  destruct (str_eqb ty S_args_delta); [apply prov_obs_args; exact Hp1|].
+  destruct (str_eqb ty S_args_done); [apply prov_obs_args; exact Hp1|].
+  exact Hp1.
+Qed.
+
+Definition announced_in (S : list json) (cid : str) : Prop := exists ev, In ev S /\ carries ev cid.
+
+Lemma prov_fold fx evs : forall S c,
+  prov (announced_in S) c -> prov (announced_in (S ++ evs)) (fold_left (observe fx) evs c).
+Proof.
+  induction evs as [|ev r IH]; intros S c Hp; cbn [fold_left].
+  - rewrite app_nil_r. exact Hp.
+  - replace (S ++ ev :: r) with ((S ++ [ev]) ++ r) by (rewrite <- app_assoc; reflexivity).
+    apply IH. apply prov_observe.
+    + eapply prov_mono; [|exact Hp]. intros x (e & He & Hc). exists e. split; [apply in_or_app; left; exact He | exact Hc].
+    + intros cid Hc. exists ev. split; [apply in_or_app; right; left; reflexivity | exact Hc].
+Qed.
+
+Lemma collect_announced fx evs x :
+  In x (k_done (collect fx evs)) -> exists ev, In ev evs /\ carries ev (c_id x).
+Proof.
+  intros Hx. assert (Hp : prov (announced_in []) coll0) by (split; [intros y [] | intros k b cid H; discriminate H]).
+  apply (prov_fold fx evs [] coll0) in Hp. cbn [app] in Hp. destruct Hp as [Hd _]. apply Hd, Hx.
+Qed.
+
+(* every call an iteration drains was announced in the answer it belongs to *)
+Lemma drained_call_was_announced g valid tool prompt init script i it c :
+  nth_error (res_iters (run g valid tool prompt init script)) i = Some it -> In c (it_calls it) ->
+  exists rd ev, nth_error script i = Some rd /\ In ev (r_events rd) /\ carries ev (c_id c).
+Proof.
+  intros Hi Hc.
+  destruct (at_most_once _ _ _ _ _ _ _ _ Hi) as (_ & [H0|(rd & Hrd & _ & _ & Hperm & _)]).
+  - rewrite H0 in Hc. destruct Hc.
+  - destruct (collect_announced (g_fixed g) (r_events rd) c) as (ev & He & Hcar).
+    { eapply Permutation.Permutation_in; [exact Hperm | exact Hc]. }
+    exists rd, ev. auto.
+Qed.
+
+Lemma in_frame_data_inv fs d :
+  In d (frame_data fs) -> exists s ev raw errs rerrs, In (Sse.FProv s 2 ev raw (Some d) errs rerrs) fs.
+Proof.
+  unfold frame_data. intros H. apply in_flat_map in H. destruct H as (f & Hf & Hd).
+  destruct f as [s st ev raw data errs rerrs|s dl]; cbn [frame_data1] in Hd; [|destruct Hd].
+  destruct data as [j|]; [|destruct Hd]. destruct (st =? 2) eqn:E; [|destruct Hd].
+  apply N.eqb_eq in E. subst st. destruct Hd as [Hd|[]]. subst j. exists s, ev, raw, errs, rerrs. exact Hf.
+Qed.
+
+(* ... from the body: the call id is carried by a function_call item in a provider-event frame of that answer *)
+Theorem drained_call_in_frames A g valid tool prompt init bodies i it c off :
+  nth_error (res_iters (run_b A OBS_BOTH g valid tool prompt init bodies)) i = Some it -> In c (it_calls it) ->
+  exists b s ev raw d errs rerrs,
+    nth_error bodies i = Some b /\
+    In (Sse.FProv s 2 ev raw (Some d) errs rerrs) (Sse.frames_of (SseJson.jclassify A) Sse.FIXED off (bb_chunks b)) /\
+    carries d (c_id c).
+Proof.
+  unfold run_b. intros Hi Hc.
+  destruct (drained_call_was_announced _ _ _ _ _ _ _ _ _ Hi Hc) as (rd & d & Hrd & Hd & Hcar).
+  rewrite nth_error_map in Hrd. destruct (nth_error bodies i) as [b|] eqn:Eb; [|discriminate].
+  cbn [option_map] in Hrd. inversion Hrd; subst rd. cbn [round_of r_events] in Hd.
+  rewrite (seen_chunk_invariant _ 0 off _ _ _ eq_refl eq_refl), seen_is_frame_data in Hd.
+  destruct (in_frame_data_inv _ _ Hd) as (s & ev & raw & errs & rerrs & Hf).
+  exists b, s, ev, raw, d, errs, rerrs. auto.
+Qed.
